@@ -2,7 +2,7 @@ use generic_array::{
     typenum::{U16, U24, U32},
     GenericArray,
 };
-use snafu::{ResultExt, Snafu};
+use snafu::{IntoError, ResultExt, Snafu};
 use zeroize::Zeroizing;
 
 const IV_LEN: usize = 8;
@@ -48,7 +48,9 @@ pub fn wrap(key: &[u8], data: &[u8]) -> Result<Vec<u8>, Error> {
 /// AES Key Unwrap
 /// As defined in RFC 3394.
 pub fn unwrap(key: &[u8], data: &[u8]) -> Result<Zeroizing<Vec<u8>>, Error> {
-    let len = data.len() - IV_LEN;
+    let Some(len) = data.len().checked_sub(IV_LEN) else {
+        return Err(UnwrapSnafu.into_error(aes_kw::Error::InvalidDataSize));
+    };
     let mut out = Zeroizing::new(vec![0u8; len]);
 
     let aes_size = key.len() * 8;
